@@ -18,7 +18,10 @@ def isInfixB [BEq α] (a b : List α) : Bool :=
 
 /-- `b64.case`: payload bytes `v`, the three values the implementation produced (`impl3`, or
 null when it rejected), and contexts `(prefix, suffix)`.  Judged by the textbook `b64Spec`:
-the value for alignment `|p| % 3` must occur in the Base64 text of `p ++ v ++ s`. -/
+the value for alignment `|p| % 3` must occur in the Base64 text of `p ++ v ++ s`.
+Optional `flat`: all strings produced for a whole value *list* the payload is an element of; reply
+`flatResults`: per context, does at least one of them occur in the Base64 text of `p ++ v ++ s`
+(the payload is found by the detection item as a whole, `Props.C04.b64offset_list_complete`). -/
 def b64Case (j : Json) : Except String Json := do
   let v ← getNats j "v"
   let lenV := getNatD j "lenV" v.length
@@ -40,11 +43,22 @@ def b64Case (j : Json) : Except String Json := do
   let noPad := match impl3 with
     | some vals => vals.all (fun s => !s.contains '=')
     | none => true
+  let flat : Option (List Str) ← match j.getObjVal? "flat" with
+    | .ok (.arr a) => do pure (some (← a.toList.mapM strOfJson))
+    | _ => pure none
+  let flatResults ← ctxs.toList.mapM fun c => do
+    let p ← getNats c "p"
+    let s ← getNats c "s"
+    let full := B64.b64Spec (p ++ v ++ s)
+    match flat with
+    | some vals => pure (Json.bool (vals.any (fun x => isInfixB x full)))
+    | none => pure Json.null
   pure (Json.mkObj [
     ("model3", .arr (model3.map strToJson).toArray),
     ("spec", strToJson (B64.b64Spec v)),
     ("modelPlain", strToJson (B64.b64 v)),
     ("results", .arr results.toArray),
+    ("flatResults", .arr flatResults.toArray),
     ("noPad", noPad)])
 
 /-- `wide.case`: code points `s`, big-endian flag; reply: the model's trick result, the UTF-16
